@@ -14,7 +14,8 @@ import (
 
 func init() {
 	register(&Property{
-		ID: "C04",
+		ID:    "C04",
+		Yield: true,
 		Rule: "PRNG histories of Handle / HandleFunc / HandleBG / Remove / incoming event over 4 names x 3 letter-case variants x both handler sets. Sequential phase: all mutations happen between markers (foreground) and after the " +
 			"permanently registered background sentinel of the previous event has run and its background invocations have finished, so the expected invocation multiset of every event is exact (snapshot-at-dispatch model); " +
 			"mutations are also made from inside running handlers (self-removal, removal of first/middle/last/only sibling, registration under the same name, another name, another letter case): they must not disturb the siblings of the " +
